@@ -449,24 +449,25 @@ def symLoop : Nat → Bool → Bool → M Unit
     doWrite act
     symLoop fuel eopmValid mightFinish
 
-/-- `rc_read_init`: `.ok true` = five bytes read (LZMA_STREAM_END), `.ok false` = input ran out (LZMA_OK);
-    `.error dataError` = the first byte is not 0x00. -/
-def rcReadInit : Nat → M Bool
+/-- `rc_read_init` with `n = init_bytes_left`: `.ok true` = all init bytes read (LZMA_STREAM_END), `.ok false` = input ran
+    out (LZMA_OK); `.error dataError` = the first byte is not 0x00 (it is not consumed). -/
+def rcReadInitN : Nat → M Bool
   | 0 => pure true
-  | fuel + 1 => fun s =>
-    if s.initLeft == 0 then .ok true s
-    else if h : s.inPos < s.inp.size then
+  | n + 1 => fun s =>
+    if h : s.inPos < s.inp.size then
       let b := s.inp[s.inPos]
-      if s.initLeft == 5 && b != 0 then .error .dataError s
+      if n + 1 == 5 && b != 0 then .error .dataError s
       else
         let rc := (Rc.mk s.range s.code).initByte b.toNat
-        rcReadInit fuel { s with code := rc.code, inPos := s.inPos + 1, initLeft := s.initLeft - 1 }
+        rcReadInitN n { s with code := rc.code, inPos := s.inPos + 1, initLeft := n }
     else .ok false s
+
+@[inline] def rcReadInit : M Bool := fun s => rcReadInitN s.initLeft s
 
 /-- One call of `lzma_decode(coder, dict, in, in_pos, in_size)` with `dict.limit` already set by the caller. -/
 def lzmaCall (s : St) : Ret × St :=
   if s.pending == .stuck then (.ok, s) else
-  match rcReadInit 6 s with
+  match rcReadInit s with
   | .error _ s => (.dataError, s)
   | .ok false s => (.ok, { s with pending := .stuck })
   | .ok true s =>
